@@ -564,7 +564,16 @@ func (f *Frame) doBuiltin(v ssa.Value, b *ssa.Builtin, c *ssa.CallCommon, pos to
 		H := f.stGet(arr, as)
 		na := f.enc.declConst(f.enc.fresh(f.sym("copyarr")), ArrSort(SInt, es))
 		f.stSet(arr, Store(H, SPtr(dst), na))
-		f.enc.note("%s: copy() destination contents abstracted", f.fname)
+		if src.Sort == SSlice {
+			// memmove semantics: the first n destination elements are the first n source elements (read before the
+			// move), every other position of the destination array keeps its value
+			at := f.atFn(es)
+			oldDst, oldSrc := Select(H, SPtr(dst)), Select(H, SPtr(src))
+			f.enc.addFact(na.S, fmt.Sprintf("(assert (forall ((i!c Int)) (! (=> (and (<= 0 i!c) (< i!c %[1]s)) (= (%[2]s %[3]s %[4]s i!c) (%[2]s %[5]s %[6]s i!c))) :pattern ((%[2]s %[3]s %[4]s i!c)))))", n.S, at, na.S, SOff(dst).S, oldSrc.S, SOff(src).S))
+			f.enc.addFact(na.S, fmt.Sprintf("(assert (forall ((j!c Int)) (! (=> (or (< j!c %[1]s) (<= (+ %[1]s %[2]s) j!c)) (= (select %[3]s j!c) (select %[4]s j!c))) :pattern ((select %[3]s j!c)))))", SOff(dst).S, n.S, na.S, oldDst.S))
+		} else {
+			f.enc.note("%s: copy() from a string: destination contents abstracted", f.fname)
+		}
 		f.vals[v] = n
 	case "delete":
 		mt := c.Args[0].Type().Underlying().(*types.Map)
@@ -725,15 +734,38 @@ func (f *Frame) appendLemmaFacts(et types.Type, a, b, c T, cc *ssa.CallCommon, c
 // ---- defer ----
 
 type deferred struct {
-	call *ssa.Defer
-	path T
+	call  *ssa.Defer
+	path  T
+	mu    T
+	block *ssa.BasicBlock
 }
 
+// doDefer: only `defer mu.Unlock()` is modelled. The deferred release is recorded with the path on which the defer
+// statement was executed and performed at RunDefers on exactly those paths.
 func (f *Frame) doDefer(x *ssa.Defer) {
-	f.enc.note("%s: defer handled only for mutex unlock", f.fname)
+	c := x.Common()
+	if fn, ok := c.Value.(*ssa.Function); ok && !c.IsInvoke() {
+		switch fn.String() {
+		case "(*sync.Mutex).Unlock", "(*sync.RWMutex).Unlock", "(*sync.RWMutex).RUnlock":
+			f.defers = append(f.defers, deferred{call: x, path: f.curPath(), mu: f.val(c.Args[0]), block: x.Block()})
+			return
+		}
+	}
+	f.enc.note("%s: defer of %s not modelled (effects of the deferred call are dropped)", f.fname, c.Value.Name())
 }
 
-func (f *Frame) runDefers(x *ssa.RunDefers) {}
+func (f *Frame) runDefers(x *ssa.RunDefers) {
+	for i := len(f.defers) - 1; i >= 0; i-- {
+		d := f.defers[i]
+		if !(d.block == x.Block() || d.block.Dominates(x.Block())) {
+			// conditional defer: release only on the paths that executed it
+			h := f.stGet("held", ArrSort(SInt, SBool))
+			f.stSet("held", Ite(d.path, Store(h, d.mu, False), h))
+			continue
+		}
+		f.lockOp(d.mu, false, x.Pos())
+	}
+}
 
 // ---- frame checks (class frame), filled in frames.go ----
 
